@@ -18,9 +18,11 @@ import (
 // and whose every I/O call can fail, end or stall by the run's fault plan.
 // A byte stream delays and cuts; it never reorders or duplicates bytes.
 type SimStream struct {
-	rc   *RunCtx
-	s    *simrt.Sim
-	Name string
+	// WholeItems: every PeerWrite becomes readable in one piece (no short reads).
+	WholeItems bool
+	rc         *RunCtx
+	s          *simrt.Sim
+	Name       string
 
 	mu         sync.Mutex
 	open       bool
@@ -355,12 +357,17 @@ func (st *SimStream) deliver(ep int) {
 	} else {
 		n := len(it.b)
 		// chunk size: whole item (most of the time), or a short read
-		switch st.rc.Tape.Pick("chunk", 6, func(r *rand.Rand) int {
-			if r.IntN(10) < 6 {
+		switch pick := func() int {
+			if st.WholeItems {
 				return 0
 			}
-			return 1 + r.IntN(4)
-		}) {
+			return st.rc.Tape.Pick("chunk", 6, func(r *rand.Rand) int {
+				if r.IntN(10) < 6 {
+					return 0
+				}
+				return 1 + r.IntN(4)
+			})
+		}; pick() {
 		case 1:
 			if n > 1 {
 				n = 1
